@@ -26,10 +26,7 @@ Proof. exact answer_unique. Qed.
 Theorem lexmin_ref_exact : forall fuel pb q,
   (forall p, lexmin_ref fuel pb q = Found p -> lexmin pb q (proj (is_par pb) p)) /\
   (lexmin_ref fuel pb q = NoPoint -> bottom pb q).
-Proof.
-  exact (fun fuel pb q => conj (fun p H => lexmin_full_lexmin pb q p (lexmin_ref_found fuel pb q p H))
-                               (lexmin_ref_nopoint fuel pb q)).
-Qed.
+Proof. exact lexmin_ref_exact_thm. Qed.
 
 (* Gomory cuts of generate_cut: valid for every integral solution of the row, and violated by the
    current fractional vertex; the two context rows define the artificial parameter as a floor *)
